@@ -85,10 +85,12 @@ def check (c):
     viol = []
     mon  = {}
     worst = 0.0
+    margins = {}
     def judge (name, measured, allowed, msg):
         nonlocal worst
         mon [name] = mon.get (name, 0) + 1
         worst = max (worst, measured / allowed)
+        margins [name.split (':') [0]] = max (margins.get (name.split (':') [0], 0.0), measured / allowed)
         if not (measured <= allowed):
             viol.append (dict (monitor = name, key = name, msg = msg, measured = measured, allowed = allowed))
     unit = observe.min_seg (mg)
@@ -120,6 +122,6 @@ def check (c):
     g0 = mg.geo [0]
     trivial = len (mg.geo) == 1 and kinds == ['b'] and abs (g0.p1 [0] - g0.p2 [0]) < 1e-12 and abs (g0.p1 [1] - g0.p2 [1]) < 1e-12
     sig = gen.signature (spec, mg, extra = ['feeds' + ''.join (sorted (kinds))])
-    return dict ( status = 'violation' if viol else 'held', sig = sig, nontrivial = not trivial, margin = worst
+    return dict ( status = 'violation' if viol else 'held', sig = sig, nontrivial = not trivial, margin = worst, margins = margins
                 , monitors = mon, violations = viol [:6], info = dict (cond = cond, N = len (mg.pulses)))
 # end def check
